@@ -69,7 +69,10 @@ fn run_decode(log: &Log, descr: Value, st: &Stream, feeds: &[usize]) {
         loop {
             let before = buf.len();
             let pos = fed - before; // stream offset of the decoder
-            match codec.decode(&mut buf) {
+            // a panic of the code under test is data, not a harness failure
+            let res = std::panic::catch_unwind(std::panic::AssertUnwindSafe(|| codec.decode(&mut buf)));
+            let res = match res { Ok(r) => r, Err(_) => Err(std::io::Error::other("decoder panicked")) };
+            match res {
                 Ok(Some(f)) => {
                     let consumed = before - buf.len();
                     let payeq = consumed >= 7 && pos + consumed <= st.bytes.len() && f.data[..] == st.bytes[pos + 7..pos + consumed];
@@ -199,6 +202,7 @@ fn run_encode(log: &Log, cmd_byte: u8, sid: u32, len: usize, r: &mut Rng) {
 pub fn run(args: &Args, log: &Log) -> Result<(), String> {
     let thorough = args.tier == "thorough";
     let mut r = Rng::new(args.seed);
+    std::panic::set_hook(Box::new(|_| {})); // panics of the codec are recorded as events
 
     // 1. command byte conversion, all 256 values
     log.reset(json!({"kind": "cmdof"}));
